@@ -41,6 +41,7 @@ struct ReqSpec {
 
 struct Cfg {
   std::string name;
+  bool        sysconf_search = false; // search domains and ndots come from the system configuration file (not from options), so ares_reinit() can change them
   bool        reuse_fds = false; // hand out the lowest free descriptor number like POSIX does (default: numbers are never reused)
   // events {kind,a,b} applied before the search starts: the search then explores from a non-initial state (they are
   // part of every history and of every replay, but do not count against the depth and per-kind budgets)
@@ -265,6 +266,8 @@ struct Token {
   int         tx_at_issue = 0, tx_at_done = 0; // transmission counter snapshots
   bool        done_during_destroy = false;
   int         cbmode = 0, cbarg = 0;
+  std::vector<std::string> domains_at_issue; // search configuration in force when the request was issued
+  int                      ndots_at_issue = 1;
 };
 
 struct Viol {
@@ -299,6 +302,8 @@ struct World {
   std::vector<std::string>            obs; // observation log
   std::vector<Viol>                   viols;
   int         fault[FS_NSITES] = { 0 };
+  std::vector<std::string> eff_domains; // search configuration currently in force (changes with a successful reinit when it comes from the file)
+  int                      eff_ndots = 1;
   int         rot_draws = 0, rot_last = -1;
   int         fault_skip[FS_NSITES] = { 0 }; // calls of that site that still succeed before the armed fault fires
   int         next_fd = 10;
